@@ -16,10 +16,11 @@ git apply "$SRC/patch.diff" || fail "patch does not apply"
 (go build ./... && cd cmd/rdfkit && go build ./...) >> "$OUT" 2>&1 || fail "does not build"
 (go test -vet=off -count=1 ./... && cd cmd/rdfkit && go test -vet=off -count=1 ./...) >> "$OUT" 2>&1 || fail "existing suite fails with the change"
 cp "$SRC"/demo_test.go "$LOC"/zz_seed_demo_test.go
-WITH=$(go test -vet=off -count=1 ./"$LOC"/ 2>&1 | tail -12)
+runloc() { case "$LOC" in cmd/rdfkit/*) (cd cmd/rdfkit && go test -vet=off -count=1 ./"${LOC#cmd/rdfkit/}"/ 2>&1);; *) go test -vet=off -count=1 ./"$LOC"/ 2>&1;; esac; }
+WITH=$(runloc | tail -12)
 echo "$WITH" | grep -q "^FAIL\|FAIL	" || fail "demo does not fail with the change: $WITH"
 git apply -R "$SRC/patch.diff" || fail "cannot revert"
-WITHOUT=$(go test -vet=off -count=1 ./"$LOC"/ 2>&1 | tail -5)
+WITHOUT=$(runloc | tail -5)
 echo "$WITHOUT" | grep -q "^ok" || fail "demo does not pass without the change: $WITHOUT"
 mkdir -p /verif/seeded/"$ID"
 cp "$SRC"/patch.diff "$SRC"/demo_test.go "$SRC"/meta.json /verif/seeded/"$ID"/
